@@ -204,8 +204,11 @@ def gen_case(rng, pid, tier):
     long_ = pid != 'C10'
     steps = rng.randint(20, 60) if long_ else rng.randint(8, 22)
     restart_at = rng.randint(steps // 3, max(steps // 3, 2 * steps // 3))
+    standby_at = random.Random(repr(rng.getstate()[1][:4])).choice([None, None, 1, 2, max(1, restart_at // 2)])
     for i in range(steps):
         r = rng.random()
+        if i == standby_at and i < restart_at:
+            ops.append(['standby'])       # (side stream) the next leader starts early and waits for the lock
         if i == restart_at:
             ops.append(['restart'])
             continue
@@ -1740,26 +1743,98 @@ def _sync(w):
     w.run.op('sync', w.obs())
 
 
-def _start_master(w):
-    """Fresh Master: load_model + init_schedule (+ the first cycle is a separate `cycle`)."""
-    w.m, w.zk = w.new_master()
+def _start_master(w, while_waiting=None):
+    """Fresh Master through the real `Master.run(once=True)`: leader lock, then `run_loop` = load_model +
+    init_schedule (+ the first cycle is a separate `cycle`).  `while_waiting`: what happens to the store while
+    this master is a standby waiting for the leader lock (nothing it looked at before may be used afterwards).
+    The root-namespace / timezone writes and the kazoo watch registrations of `run_loop` are switched off."""
+    parked = getattr(w, 'standby', None)
+    w.standby = None
+    if parked is not None:
+        # a standby that has been waiting for the leader lock since earlier in the history takes over
+        w.m, w.zk = parked
+        w.stats['standby-takes-over'] += 1
+    else:
+        w.m, w.zk = w.new_master()
     w.site_placed = {}
     w.flags = {}
     w.unsched_named = {}            # the unschedule marks live in the master's memory only
     w.enabled = True
     w.run.op('newmaster %d %d' % (ROOT, LEVELS['cell']), None)
     w.run.op('tick %d' % w.now, None)
-    w.m.load_model()
-    # the affinity an instance declares, as far as this master is concerned: what its stored manifest says now
-    w.aff_decl = {}
-    for an_ in w.store.children('/scheduled'):
-        try:
-            w.aff_decl[an_] = (json.loads(w.store.nodes['/scheduled/' + an_].data.decode()) or {}).get('affinity')
-        except ValueError:
-            pass
-    _sync(w)
-    w.m.init_schedule()
+
+    class _Lock(object):
+        def __enter__(self):
+            if while_waiting is not None:
+                saved = w.enabled
+                w.enabled = False
+                try:
+                    while_waiting()
+                finally:
+                    w.enabled = saved
+            return self
+
+        def __exit__(self, *_a):
+            return False
+    master_cls = w.master_mod.Master
+    real_init = master_cls.init_schedule
+
+    def init_schedule(self):
+        if self is w.m:
+            # the affinity an instance declares, as far as this master is concerned: what its stored manifest
+            # says when it is loaded
+            w.aff_decl = {}
+            for an_ in w.store.children('/scheduled'):
+                try:
+                    w.aff_decl[an_] = (json.loads(w.store.nodes['/scheduled/' + an_].data.decode()) or {}).get(
+                        'affinity')
+                except ValueError:
+                    pass
+            _sync(w)
+        return real_init(self)
+    with mock.patch.object(w.master_mod.zkutils, 'make_lock', lambda *_a, **_k: _Lock()), \
+            mock.patch.object(master_cls, 'create_rootns', lambda self: None), \
+            mock.patch.object(master_cls, 'store_timezone', lambda self: None), \
+            mock.patch.object(master_cls, 'attach_watchers', lambda self: None), \
+            mock.patch.object(master_cls, 'init_schedule', init_schedule):
+        if parked is not None:
+            _Lock().__enter__()
+            w.m.run_loop(True)          # (the lock was requested when the standby started: `_park_standby`)
+        else:
+            # (`run` is wrapped by utils.exit_on_unhandled, which ends the PROCESS on any exception: the body is
+            # called, so that a start-up that dies surfaces here as its exception)
+            getattr(master_cls.run, '__wrapped__', master_cls.run)(w.m, True)
     w.last_sched = w.store.children('/scheduled')
+
+
+class _Parked(Exception):
+    """The standby master reached the leader lock and waits there."""
+
+
+def _park_standby(w):
+    """A second master process starts while the leader is alive: the real `Master.run` up to the point where it
+    blocks on the leader lock.  Whatever it does before that point it does with a cell that keeps changing."""
+    if getattr(w, 'standby', None) is not None:
+        return
+    m1, zk1 = w.new_master()
+
+    class _Lock(object):
+        def __enter__(self):
+            raise _Parked()
+
+        def __exit__(self, *_a):
+            return False
+    master_cls = w.master_mod.Master
+    with mock.patch.object(w.master_mod.zkutils, 'make_lock', lambda *_a, **_k: _Lock()), \
+            mock.patch.object(master_cls, 'create_rootns', lambda self: None), \
+            mock.patch.object(master_cls, 'store_timezone', lambda self: None), \
+            mock.patch.object(master_cls, 'attach_watchers', lambda self: None):
+        try:
+            getattr(master_cls.run, '__wrapped__', master_cls.run)(m1, True)
+        except _Parked:
+            pass
+    w.standby = (m1, zk1)
+    w.stats['standby-parked'] += 1
 
 
 SCHED_PIDS = ('C01', 'C03', 'C04', 'C05', 'C08')
@@ -2037,14 +2112,14 @@ def _read_fault_probe(w):
         w.stats['c11-read-fault-harmless'] += 1
 
 
-def _restart(w, pid, when):
+def _restart(w, pid, when, while_waiting=None):
     """New master on the same store: load_model + init_schedule, then its first cycle."""
     w.stats['restart'] += 1
     w.now += 3
     w.enabled = False
     if pid == 'C11':
         _read_fault_probe(w)
-    _guarded(w, 'restart', lambda: _start_master(w))
+    _guarded(w, 'restart', lambda: _start_master(w, while_waiting))
     _guarded(w, 'first-cycle', lambda: _cycle(w, pid))
     _after_cycle(w, pid, when)
 
@@ -2071,6 +2146,57 @@ def _run(case, pid, run, w):
             _restart(w, pid, 'restart-after-death')
 
 
+def _offline_sub(w, pid, sub):
+    """One change of the store made while no master leads."""
+    if sub[0] == 'presence':
+        if '/servers/' + sname(sub[1]) in w.store.nodes or not sub[2]:
+            _presence(w, sub[1], sub[2])
+    elif sub[0] == 'server':
+        w.stats['offline-server-record'] += 1
+        if sub[2] is None:
+            w.zdel('/servers/' + sname(sub[1]))
+        else:
+            _put_server(w, sub[1], sub[2])
+    elif sub[0] == 'inject' and pid in SCHED_PIDS:
+        w.stats['inject-skipped-sched-pid'] += 1
+    elif sub[0] == 'inject':
+        _, n, sid, ident, dexp = sub
+        name = w.apps_n.get(n)
+        path = None if name is None else '/placement/%s/%s' % (sname(sid), name)
+        if path is not None and path not in w.store.nodes:
+            w.stats['inject'] += 1
+            if '/placement/' + sname(sid) not in w.store.nodes:
+                w.admin.create('/placement/' + sname(sid), b'')
+                _env(w, 'w mk:%d' % sid)
+            twin = [v for k, v in records(w.store).items() if k[1] == name]
+            if twin:
+                # a second record of a placed instance carries what the first one carries
+                w.stats['inject-double'] += 1
+                d = dict(twin[0][0])
+            else:
+                man = w.store.nodes.get('/scheduled/' + name)
+                grouped = man is not None and 'identity_group' in json.loads(man.data.decode())
+                ident = (ident or 0) if grouped else None      # a placed grouped instance has an identity
+                d = {'identity': ident, 'identity_count': None if ident is None else 3,
+                     'expires': float(w.now + dexp)}
+            w.zput(path, d)
+            w.injected.add((sname(sid), name))
+            _env(w, 'w ' + w.canon_write('create', path, json.dumps(d).encode()))
+    elif sub[0] == 'rmapp':
+        name = w.apps_n.get(sub[1])
+        if name is not None and '/scheduled/' + name in w.store.nodes:
+            w.zdel('/scheduled/' + name)
+            _env(w, 'zsched %d 0' % aid_of(name))
+    elif sub[0] == 'app' and sub[1] not in w.apps_n:
+        name = aname(sub[2], sub[3], sub[1])
+        w.apps_n[sub[1]] = name
+        man = dict(sub[4])
+        if not man.pop('noaff', False):
+            man.setdefault('affinity', name.split('#')[0])
+        w.zput('/scheduled/' + name, man)
+        _env(w, 'zsched %d 1' % aid_of(name))
+
+
 def _apply(case, pid, run, w, op):
     k = op[0]
     guarded = lambda what, fn: _guarded(w, what, fn)
@@ -2085,6 +2211,9 @@ def _apply(case, pid, run, w, op):
         guarded('check_integrity', lambda: _integrity(w, pid))
         _sync(w)
         return
+    if k == 'standby':
+        _park_standby(w)
+        return
     if k == 'restart':
         _restart(w, pid, 'restart')
         return
@@ -2097,55 +2226,18 @@ def _apply(case, pid, run, w, op):
         w.enabled = False
         w.now += 1
         w.run.op('tick %d' % w.now, None)
-        for sub in op[1]:
-            if sub[0] == 'presence':
-                if '/servers/' + sname(sub[1]) in w.store.nodes or not sub[2]:
-                    _presence(w, sub[1], sub[2])
-            elif sub[0] == 'server':
-                w.stats['offline-server-record'] += 1
-                if sub[2] is None:
-                    w.zdel('/servers/' + sname(sub[1]))
-                else:
-                    _put_server(w, sub[1], sub[2])
-            elif sub[0] == 'inject' and pid in SCHED_PIDS:
-                w.stats['inject-skipped-sched-pid'] += 1
-            elif sub[0] == 'inject':
-                _, n, sid, ident, dexp = sub
-                name = w.apps_n.get(n)
-                path = None if name is None else '/placement/%s/%s' % (sname(sid), name)
-                if path is not None and path not in w.store.nodes:
-                    w.stats['inject'] += 1
-                    if '/placement/' + sname(sid) not in w.store.nodes:
-                        w.admin.create('/placement/' + sname(sid), b'')
-                        _env(w, 'w mk:%d' % sid)
-                    twin = [v for k, v in records(w.store).items() if k[1] == name]
-                    if twin:
-                        # a second record of a placed instance carries what the first one carries
-                        w.stats['inject-double'] += 1
-                        d = dict(twin[0][0])
-                    else:
-                        man = w.store.nodes.get('/scheduled/' + name)
-                        grouped = man is not None and 'identity_group' in json.loads(man.data.decode())
-                        ident = (ident or 0) if grouped else None      # a placed grouped instance has an identity
-                        d = {'identity': ident, 'identity_count': None if ident is None else 3,
-                             'expires': float(w.now + dexp)}
-                    w.zput(path, d)
-                    w.injected.add((sname(sid), name))
-                    _env(w, 'w ' + w.canon_write('create', path, json.dumps(d).encode()))
-            elif sub[0] == 'rmapp':
-                name = w.apps_n.get(sub[1])
-                if name is not None and '/scheduled/' + name in w.store.nodes:
-                    w.zdel('/scheduled/' + name)
-                    _env(w, 'zsched %d 0' % aid_of(name))
-            elif sub[0] == 'app' and sub[1] not in w.apps_n:
-                name = aname(sub[2], sub[3], sub[1])
-                w.apps_n[sub[1]] = name
-                man = dict(sub[4])
-                if not man.pop('noaff', False):
-                    man.setdefault('affinity', name.split('#')[0])
-                w.zput('/scheduled/' + name, man)
-                _env(w, 'zsched %d 1' % aid_of(name))
-        _restart(w, pid, 'restart-after-offline-events')
+
+        def apply_subs():
+            for sub in op[1]:
+                _offline_sub(w, pid, sub)
+        if pid == 'C10':
+            # (C10 enumerates the crash points of the new master's start-up: its guard admits no foreign writes)
+            apply_subs()
+            _restart(w, pid, 'restart-after-offline-events')
+        else:
+            # the successor is already there, as a standby waiting for the leader lock, while this happens
+            w.stats['offline-while-standby-waits'] += 1
+            _restart(w, pid, 'restart-after-offline-events', while_waiting=apply_subs)
         return
     # ---- ZooKeeper-level events: the admin / node side changes the store, the master is told
     if k == 'app':
